@@ -31,6 +31,10 @@ VARIABLES
     ds,       \* driver-station mode word as last polled by the robot thread (DriverStation.refreshData() at the top of
               \* every mode-loop iteration; the dispatcher in startCompetition() uses this cached word, it does not poll)
     dsNew,    \* the latest word the driver station has sent: "disabled" | "auto" | "teleop" | "test"
+    chooserNew, \* what the dashboard's chooser widget has selected (a mode, or None for "None" / anything unknown)
+    chooser,  \* ... as far as the robot's chooser object has taken notice: the widget's value is fetched by
+              \* SmartDashboard.updateValues(), which the DEFAULT robotPeriodic() calls every iteration - a robot that
+              \* overrides robotPeriodic() (sh.rp, the default) never looks and keeps the preselected mode
     fms,      \* FMS attached
     exit,     \* endCompetition() was called
     selStr,   \* SmartDashboard "Auto Selector" string
@@ -53,7 +57,7 @@ VARIABLES
     nfault,   \* callbacks that raised so far
     swallowed \* callbacks that raised and were swallowed
 
-rvars == <<sh, ds, dsNew, fms, exit, selStr, pc, mode, ntMode, todo, fbleft, en, nsetup, rv, smReq, fbNT, now, alarm,
+rvars == <<sh, chooser, chooserNew, ds, dsNew, fms, exit, selStr, pc, mode, ntMode, todo, fbleft, en, nsetup, rv, smReq, fbNT, now, alarm,
            autoT0, active, iterNo, mIter, nfault, swallowed>>
 
 (* layout:
@@ -103,6 +107,8 @@ LeaveSeq(m) ==
       [] OTHER -> <<>>
 
 Pseudo == {"fbphase", "reset", "autostart", "autostop"}
+\* does the robot class override robotPeriodic()?  (layouts without the field do)
+RP == IF "rp" \in DOMAIN sh THEN sh.rp ELSE TRUE
 
 \* every user-callback site is guarded by onException(); the two that were not on the pinned tree
 Guarded(s) ==
@@ -128,7 +134,8 @@ FbTypeString(ty) ==
       [] ty = "struct[]" -> "struct:Translation2d[]" [] ty = "none" -> "" [] OTHER -> ty
 
 Init(layout, f) ==
-    /\ sh = layout /\ ds = "disabled" /\ dsNew = "disabled" /\ fms = f /\ exit = FALSE /\ selStr = ""
+    /\ sh = layout /\ chooser = layout.defmode /\ chooserNew = layout.defmode
+    /\ ds = "disabled" /\ dsNew = "disabled" /\ fms = f /\ exit = FALSE /\ selStr = ""
     /\ pc = "boot" /\ mode = None /\ ntMode = ""
     /\ todo = LET idx == SelectSeq([i \in 1..Len(layout.comps) |-> i],
                                    LAMBDA i : layout.has[layout.comps[i]]["setup"])
@@ -153,34 +160,39 @@ SilentEnabled ==
     \/ todo = <<>> /\ pc \in {"boot", "dispatch", "enter", "head", "leave"}
     \/ todo # <<>> /\ Head(todo).k \in {"reset", "autostart", "autostop"}
     \/ todo # <<>> /\ Head(todo).k = "fbphase" /\ fbleft = {}
+    \/ todo # <<>> /\ Head(todo).k = "robotPeriodic" /\ ~RP
 
 Silent ==
     \/ /\ todo # <<>> /\ Head(todo).k = "reset"
        /\ rv' = ResetVals(rv) /\ todo' = Tail(todo)
-       /\ UNCHANGED <<sh, ds, dsNew, fms, exit, selStr, pc, mode, ntMode, fbleft, en, nsetup, smReq, fbNT, now, alarm,
+       /\ UNCHANGED <<sh, chooser, chooserNew, ds, dsNew, fms, exit, selStr, pc, mode, ntMode, fbleft, en, nsetup, smReq, fbNT, now, alarm,
                       autoT0, active, iterNo, mIter, nfault, swallowed>>
     \/ /\ todo # <<>> /\ Head(todo).k = "autostart"      \* timer start + _on_autonomous_enable()
-       /\ LET a == IF selStr \in sh.modes THEN selStr ELSE sh.defmode
+       /\ LET a == IF selStr \in sh.modes THEN selStr ELSE chooser
           IN /\ active' = a /\ autoT0' = now
              /\ todo' = (IF a # None THEN <<Site("auto.on_enable", a)>> ELSE <<>>) \o Tail(todo)
-       /\ UNCHANGED <<sh, ds, dsNew, fms, exit, selStr, pc, mode, ntMode, fbleft, en, nsetup, rv, smReq, fbNT, now, alarm,
+       /\ UNCHANGED <<sh, chooser, chooserNew, ds, dsNew, fms, exit, selStr, pc, mode, ntMode, fbleft, en, nsetup, rv, smReq, fbNT, now, alarm,
                       iterNo, mIter, nfault, swallowed>>
     \/ /\ todo # <<>> /\ Head(todo).k = "autostop"       \* selector.disable(): active_mode := None
        /\ active' = None /\ todo' = Tail(todo)
-       /\ UNCHANGED <<sh, ds, dsNew, fms, exit, selStr, pc, mode, ntMode, fbleft, en, nsetup, rv, smReq, fbNT, now, alarm,
+       /\ UNCHANGED <<sh, chooser, chooserNew, ds, dsNew, fms, exit, selStr, pc, mode, ntMode, fbleft, en, nsetup, rv, smReq, fbNT, now, alarm,
                       autoT0, iterNo, mIter, nfault, swallowed>>
+    \/ /\ todo # <<>> /\ Head(todo).k = "robotPeriodic" /\ ~RP      \* the default robotPeriodic(): updateValues()
+       /\ chooser' = chooserNew /\ todo' = Tail(todo)
+       /\ UNCHANGED <<sh, chooserNew, ds, dsNew, fms, exit, selStr, pc, mode, ntMode, fbleft, en, nsetup, rv, smReq, fbNT,
+                      now, alarm, autoT0, active, iterNo, mIter, nfault, swallowed>>
     \/ /\ todo # <<>> /\ Head(todo).k = "fbphase" /\ fbleft = {}
        /\ todo' = Tail(todo)
-       /\ UNCHANGED <<sh, ds, dsNew, fms, exit, selStr, pc, mode, ntMode, fbleft, en, nsetup, rv, smReq, fbNT, now, alarm,
+       /\ UNCHANGED <<sh, chooser, chooserNew, ds, dsNew, fms, exit, selStr, pc, mode, ntMode, fbleft, en, nsetup, rv, smReq, fbNT, now, alarm,
                       autoT0, active, iterNo, mIter, nfault, swallowed>>
     \/ /\ todo = <<>> /\ pc = "boot" /\ pc' = "dispatch"
-       /\ UNCHANGED <<sh, ds, dsNew, fms, exit, selStr, mode, ntMode, todo, fbleft, en, nsetup, rv, smReq, fbNT, now, alarm,
+       /\ UNCHANGED <<sh, chooser, chooserNew, ds, dsNew, fms, exit, selStr, mode, ntMode, todo, fbleft, en, nsetup, rv, smReq, fbNT, now, alarm,
                       autoT0, active, iterNo, mIter, nfault, swallowed>>
     \/ /\ todo = <<>> /\ pc = "dispatch"
        /\ IF exit THEN pc' = "exited" /\ UNCHANGED <<mode, ntMode, todo>>
           ELSE mode' = ds /\ ntMode' = ds /\ todo' = EnterSeq(ds) /\ pc' = "enter"
        /\ mIter' = 0
-       /\ UNCHANGED <<sh, ds, dsNew, fms, exit, selStr, fbleft, en, nsetup, rv, smReq, fbNT, now, alarm, autoT0, active,
+       /\ UNCHANGED <<sh, chooser, chooserNew, ds, dsNew, fms, exit, selStr, fbleft, en, nsetup, rv, smReq, fbNT, now, alarm, autoT0, active,
                       iterNo, nfault, swallowed>>
     \/ /\ todo = <<>> /\ pc \in {"enter", "head"}
        \* top of the mode loop: unless endCompetition() was called, poll the driver station, then stay or leave
@@ -190,10 +202,10 @@ Silent ==
                /\ fbleft' = sh.feedbacks
                /\ alarm' = IF pc = "enter" THEN now + P ELSE alarm     \* NotifierDelay created on entry
           ELSE /\ todo' = LeaveSeq(mode) /\ pc' = "leave" /\ UNCHANGED <<iterNo, mIter, fbleft, alarm>>
-       /\ UNCHANGED <<sh, dsNew, fms, exit, selStr, mode, ntMode, en, nsetup, rv, smReq, fbNT, now, autoT0, active,
+       /\ UNCHANGED <<sh, chooser, chooserNew, dsNew, fms, exit, selStr, mode, ntMode, en, nsetup, rv, smReq, fbNT, now, autoT0, active,
                       nfault, swallowed>>
     \/ /\ todo = <<>> /\ pc = "leave" /\ pc' = "dispatch"
-       /\ UNCHANGED <<sh, ds, dsNew, fms, exit, selStr, mode, ntMode, todo, fbleft, en, nsetup, rv, smReq, fbNT, now, alarm,
+       /\ UNCHANGED <<sh, chooser, chooserNew, ds, dsNew, fms, exit, selStr, mode, ntMode, todo, fbleft, en, nsetup, rv, smReq, fbNT, now, alarm,
                       autoT0, active, iterNo, mIter, nfault, swallowed>>
 
 (***************************************************************************)
@@ -215,7 +227,7 @@ CbEnabled(ev) ==
     /\ todo # <<>> /\ pc \notin {"crashed", "exited", "wait"}
     /\ IF Head(todo).k = "fbphase"
        THEN IsFb(ev) /\ [o |-> ev.o, key |-> ev.key] \in fbleft
-       ELSE ~IsFb(ev) /\ Head(todo) = Site(ev.k, ev.o)
+       ELSE ~IsFb(ev) /\ Head(todo) = Site(ev.k, ev.o) /\ ~(ev.k = "robotPeriodic" /\ ~RP)
 
 Callback(ev) ==
     LET s == Site(ev.k, ev.o)
@@ -247,33 +259,37 @@ Callback(ev) ==
                ELSE todo' = Tail(todo) /\ fbleft' = fbleft
     \* while the callback runs the driver station may send a new word (ev.dsw): it is seen at the next poll
     /\ dsNew' = (IF "dsw" \in DOMAIN ev /\ ev.dsw # "" THEN ev.dsw ELSE dsNew)
-    /\ UNCHANGED <<sh, ds, fms, exit, selStr, mode, ntMode, alarm, autoT0, active, iterNo, mIter>>
+    /\ UNCHANGED <<sh, chooser, chooserNew, ds, fms, exit, selStr, mode, ntMode, alarm, autoT0, active, iterNo, mIter>>
 
 WaitEv ==       \* the thread blocks in NotifierDelay.wait()
     /\ pc = "body" /\ todo = <<>> /\ pc' = "wait"
-    /\ UNCHANGED <<sh, ds, dsNew, fms, exit, selStr, mode, ntMode, todo, fbleft, en, nsetup, rv, smReq, fbNT, now, alarm,
+    /\ UNCHANGED <<sh, chooser, chooserNew, ds, dsNew, fms, exit, selStr, mode, ntMode, todo, fbleft, en, nsetup, rv, smReq, fbNT, now, alarm,
                    autoT0, active, iterNo, mIter, nfault, swallowed>>
 WakeEv ==       \* ... and returns at the alarm, or at once when the alarm is already past
     /\ pc = "wait" /\ pc' = "head"
     /\ now' = Max(now, alarm) /\ alarm' = alarm + P
-    /\ UNCHANGED <<sh, ds, dsNew, fms, exit, selStr, mode, ntMode, todo, fbleft, en, nsetup, rv, smReq, fbNT, autoT0, active,
+    /\ UNCHANGED <<sh, chooser, chooserNew, ds, dsNew, fms, exit, selStr, mode, ntMode, todo, fbleft, en, nsetup, rv, smReq, fbNT, autoT0, active,
                    iterNo, mIter, nfault, swallowed>>
 \* environment inputs, delivered while the robot thread is blocked
 DsSet(m) ==
     /\ pc = "wait" /\ dsNew' = m
-    /\ UNCHANGED <<sh, ds, fms, exit, selStr, pc, mode, ntMode, todo, fbleft, en, nsetup, rv, smReq, fbNT, now, alarm, autoT0,
+    /\ UNCHANGED <<sh, chooser, chooserNew, ds, fms, exit, selStr, pc, mode, ntMode, todo, fbleft, en, nsetup, rv, smReq, fbNT, now, alarm, autoT0,
                    active, iterNo, mIter, nfault, swallowed>>
 FmsSet(b) ==
     /\ pc = "wait" /\ fms' = b
-    /\ UNCHANGED <<sh, ds, dsNew, exit, selStr, pc, mode, ntMode, todo, fbleft, en, nsetup, rv, smReq, fbNT, now, alarm, autoT0,
+    /\ UNCHANGED <<sh, chooser, chooserNew, ds, dsNew, exit, selStr, pc, mode, ntMode, todo, fbleft, en, nsetup, rv, smReq, fbNT, now, alarm, autoT0,
                    active, iterNo, mIter, nfault, swallowed>>
+Choose(m) ==       \* the chooser widget on the dashboard
+    /\ pc = "wait" /\ chooserNew' = (IF m \in sh.modes THEN m ELSE None)
+    /\ UNCHANGED <<sh, chooser, ds, dsNew, fms, exit, selStr, pc, mode, ntMode, todo, fbleft, en, nsetup, rv, smReq, fbNT, now,
+                   alarm, autoT0, active, iterNo, mIter, nfault, swallowed>>
 Select(s) ==
     /\ pc = "wait" /\ selStr' = s
-    /\ UNCHANGED <<sh, ds, dsNew, fms, exit, pc, mode, ntMode, todo, fbleft, en, nsetup, rv, smReq, fbNT, now, alarm, autoT0,
+    /\ UNCHANGED <<sh, chooser, chooserNew, ds, dsNew, fms, exit, pc, mode, ntMode, todo, fbleft, en, nsetup, rv, smReq, fbNT, now, alarm, autoT0,
                    active, iterNo, mIter, nfault, swallowed>>
 EndComp ==
     /\ pc = "wait" /\ exit' = TRUE
-    /\ UNCHANGED <<sh, ds, dsNew, fms, selStr, pc, mode, ntMode, todo, fbleft, en, nsetup, rv, smReq, fbNT, now, alarm, autoT0,
+    /\ UNCHANGED <<sh, chooser, chooserNew, ds, dsNew, fms, selStr, pc, mode, ntMode, todo, fbleft, en, nsetup, rv, smReq, fbNT, now, alarm, autoT0,
                    active, iterNo, mIter, nfault, swallowed>>
 ExitEv(crashed) ==   \* startCompetition() returned / raised
     /\ pc = (IF crashed THEN "crashed" ELSE "exited")
@@ -282,7 +298,7 @@ ExitEv(crashed) ==   \* startCompetition() returned / raised
 EvEnabled(ev) ==
     CASE ev.e = "cb"   -> CbEnabled(ev)
       [] ev.e = "wait" -> pc = "body" /\ todo = <<>>
-      [] ev.e \in {"wake", "ds", "fms", "sel", "end"} -> pc = "wait"
+      [] ev.e \in {"wake", "ds", "fms", "sel", "end", "choose"} -> pc = "wait"
       [] ev.e = "exit" -> pc = (IF ev.crashed THEN "crashed" ELSE "exited")
       [] OTHER -> FALSE
 
@@ -291,6 +307,7 @@ EvNext(ev) ==
       [] ev.e = "wait" -> WaitEv
       [] ev.e = "wake" -> WakeEv
       [] ev.e = "ds"   -> DsSet(ev.m)
+      [] ev.e = "choose" -> Choose(ev.m)
       [] ev.e = "fms"  -> FmsSet(ev.b)
       [] ev.e = "sel"  -> Select(ev.s)
       [] ev.e = "end"  -> EndComp
